@@ -675,16 +675,43 @@ def check(ctx):
 
     # ------------------------------------------------------------------ R7
     ctx.rule("R7", "per-point observation count advances by exactly one on every path", floor=3)
+    # the amount one observation counts for: the literal 1, or a parameter of the record routine that defaults to 1 and that
+    # the evaluating entry point never sets (an importing entry point may hand in "this value summarises k observations");
+    # every increment of the routine must then use the same amount
+    unit = None
+    dflt = dict(zip([a_.arg for a_ in rec.node.args.args][len(rec.node.args.args) - len(rec.node.args.defaults):], rec.node.args.defaults))
+    dflt.update({a_.arg: d_ for a_, d_ in zip(rec.node.args.kwonlyargs, rec.node.args.kw_defaults) if d_ is not None})
+    for pn_, d_ in dflt.items():
+        if const_num(d_) == 1 and not isinstance(getattr(d_, "value", None), bool):
+            set_by_call = False
+            for cfn_, c_ in [(f_, c2_) for f_ in R.logger_cls.methods.values() for c2_, tg_ in prog.calls_in(f_) if rec in tg_]:
+                b_ = bind_args(rec, c_)
+                if pn_ in b_ and const_num(b_[pn_]) != 1 and cfn_.node.name == "__call__":
+                    set_by_call = True
+            used = any(isinstance(n_, ast.Name) and n_.id == pn_ for a, t, v, s, k in [x for g_ in groups.values() for x in g_] if a == "n_evals" and v is not None for n_ in ast.walk(v))
+            if used and not set_by_call and not any(isinstance(n_, ast.Name) and n_.id == pn_ and not isinstance(n_.ctx, ast.Load) for n_ in ast.walk(rec.node)):
+                unit = pn_
+    amounts_used = set()
+
+    def _is_unit(e_):
+        if const_num(e_) == 1:
+            amounts_used.add("1")
+            return True
+        if unit is not None and isinstance(e_, ast.Name) and e_.id == unit:
+            amounts_used.add(unit)
+            return True
+        return False
+
     for rid, stores in groups.items():
         incs = []
         for a, t, v, s, k in stores:
             if a != "n_evals":
                 continue
-            if k == "aug" and isinstance(s.op, ast.Add) and const_num(v) == 1:
+            if k == "aug" and isinstance(s.op, ast.Add) and _is_unit(v):
                 incs.append(s)
             elif k == "assign":
                 # np.maximum(1, n + 1) on a fresh row
-                plus = [n for n in ast.walk(v) if isinstance(n, ast.BinOp) and isinstance(n.op, ast.Add) and (const_num(n.right) == 1 or const_num(n.left) == 1)]
+                plus = [n for n in ast.walk(v) if isinstance(n, ast.BinOp) and isinstance(n.op, ast.Add) and (_is_unit(n.right) or _is_unit(n.left))]
                 if plus:
                     incs.append(s)
                 else:
@@ -694,6 +721,15 @@ def check(ctx):
             ctx.ok(rec, incs[0], "n_evals + 1 once on this path")
         else:
             ctx.fail(rec, rn, f"n_evals is advanced {len(incs)} times on the path ending at this return (expected exactly once)", construct=f"n_evals increments on path -> {canon(rn.value)}: {len(incs)}")
+
+    if unit is not None:
+        # a path that weighs the observation by the amount parameter elsewhere (timing mean, merged value) must count it
+        # by the same amount
+        for rid, stores in groups.items():
+            uses_unit = any(v is not None and a != "n_evals" and any(isinstance(n_, ast.Name) and n_.id == unit for n_ in ast.walk(v)) for a, t, v, s, k in stores)
+            for a, t, v, s, k in stores:
+                if a == "n_evals" and v is not None and uses_unit and not any(isinstance(n_, ast.Name) and n_.id == unit for n_ in ast.walk(v)):
+                    ctx.fail(rec, s, f"this path weighs the observation by '{unit}' in its other per-row updates but advances the observation count by 1: a value that summarises several evaluations is under-counted", construct=f"n_evals += 1 on a path weighted by {unit}")
 
     # ------------------------------------------------------------------ R9
     ctx.rule("R9", "no in-place numpy operation (overwrite_input=True, sort / partition / fill / shuffle) on a view of a log table outside the logger", floor=0)
